@@ -4,6 +4,6 @@ V=${VERIF_DIR:-/verif}; cd $V
 for f in mutants/${1:-*}.patch; do
   b=$(basename "$f" .patch); p=${b%%-*}
   out=$(tools/trymutant.sh "$p" "$f" 2>&1)
-  n=$(echo "$out" | grep -c "violation class")
+  n=$(echo "$out" | grep -c "^  violation class")
   if [ "$n" -gt 0 ]; then echo "CAUGHT  $b  ($n classes: $(echo "$out" | grep "violation class" | head -2 | sed 's/.*violation class //' | tr '\n' ';' | cut -c1-150))"; else echo "MISSED  $b  :: $(echo "$out" | tail -1)"; fi
 done
